@@ -22,6 +22,7 @@ def check(chk, thorough=False):
     chk.run('C18.c', 'R-PAIR', 'queue maps and finished signals move together (RX map <-> recv_bundle_finished; finished TX ids leave the TX map; pops remove exactly the id)', lambda ob: c18c(tree, ob), floor=8)
     chk.run('C18.d', 'R-SCHEMA', 'the idle predicate is the conjunction of both message buffers being empty and no transfer queued, active or awaiting ACK', lambda ob: c18d(tree, ob), floor=7)
     chk.run('C18.d2', 'R-GUARD', 'the post-termination close decision uses the full idle predicate (transfers included), not just the octet buffers', lambda ob: close_check(tree, ob), floor=1)
+    chk.run('C18.g', 'R-FRESH', 'transfer maps and queues belong to their session / agent object (created per instance, no shared default objects) (= C01.g, first part)', lambda ob: (__import__('sa.props.common', fromlist=['per_instance_state', 'fresh_defaults']).per_instance_state(tree, ob, 'tcpcl/session.py', ('Connection', 'Messenger', 'ContactHandler')), __import__('sa.props.common', fromlist=['per_instance_state', 'fresh_defaults']).per_instance_state(tree, ob, 'tcpcl/agent.py', ('Agent',)), __import__('sa.props.common', fromlist=['per_instance_state', 'fresh_defaults']).per_instance_state(tree, ob, 'udpcl/agent.py', ('Agent',)), __import__('sa.props.common', fromlist=['per_instance_state', 'fresh_defaults']).fresh_defaults(tree, ob, ['tcpcl/session.py', 'tcpcl/agent.py', 'tcpcl/config.py'])), floor=3)
     chk.run('C18.f', 'R-GUARD', 'a started transfer still completes (and gets its finished signal) while terminating (= C09.h); received UDPCL items get local ids (= C13.g)', lambda ob: _c18f(tree, ob), floor=3)
     chk.run('C18.e', 'R-SCHEMA', 'BP-side subscribers name existing signals with matching arity and pop only successful transfers', lambda ob: c18e(tree, ob), floor=6)
 
